@@ -16,6 +16,15 @@ impl<'a> HelpRequest<'a> {
 //@ ensures
 //@     // C12: exactly the help-shaped lines are turned into help requests (and therefore never reach the handler)
 //@     (r is Some) == wants_help(command.name_bytes(), command.arg_tokens()),   // [C12,C01]
+//@     // C12: which help is requested: the command list for `help` alone; for `help <command> ...` the command named
+//@     // by the first argument with the remaining tokens; for `<command> ... -h|--help ...` that very command
+//@     command.name_bytes() == help_word() && command.arg_tokens().len() == 0 ==> r == Some(HelpRequest::All),   // [C12]
+//@     command.name_bytes() == help_word() && command.arg_tokens().len() > 0 && (r matches Some(HelpRequest::Command(c)))
+//@         ==> (r matches Some(HelpRequest::Command(c)) && c.name_bytes() == command.arg_tokens()[0]
+//@              && c.arg_tokens() == command.arg_tokens().drop_first()),   // [C12]
+//@     command.name_bytes() != help_word() && r is Some
+//@         ==> (r matches Some(HelpRequest::Command(c)) && c.name_bytes() == command.name_bytes()
+//@              && c.arg_tokens() == command.arg_tokens()),   // [C12]
 //@ ---
 //@ let ghost items = classify(command.arg_tokens(), false);
 //@ proof { broadcast use lemma_str_view_bytes; lemma_help_word(); }
@@ -23,6 +32,10 @@ impl<'a> HelpRequest<'a> {
         if command.name() == "help" {
             match args.next() {
                 Some(Arg::Value(name)) => {
+//@ proof {   // [C12]
+//@     let toks = command.arg_tokens();
+//@     assert(name.spec_bytes() == toks[0]);
+//@ }
                     let command = RawCommand::new(name, args.into_args());
                     Some(HelpRequest::Command(command))
                 }
@@ -32,21 +45,22 @@ impl<'a> HelpRequest<'a> {
         }
         // check if any other option is -h or --help
         else if {
+            let mut __it = args;
             let mut __found = false;
             loop {
 //@ invariant_except_break
 //@     !__found,
-//@     forall|i: int| 0 <= i < items.len() - args.view().len() ==> !(#[trigger] items[i] == ArgItem::Long(help_word()) || items[i] == ArgItem::Short('h')),
+//@     forall|i: int| 0 <= i < items.len() - __it.view().len() ==> !(#[trigger] items[i] == ArgItem::Long(help_word()) || items[i] == ArgItem::Short('h')),
 //@ invariant
-//@     args.view().len() <= items.len(),
-//@     args.view() == items.skip(items.len() - args.view().len()),
+//@     __it.view().len() <= items.len(),
+//@     __it.view() == items.skip(items.len() - __it.view().len()),
 //@     "help".spec_bytes() == help_word(),
 //@ ensures
 //@     __found == (exists|i: int| 0 <= i < items.len() && (#[trigger] items[i] == ArgItem::Long(help_word()) || items[i] == ArgItem::Short('h'))),
-//@ decreases args.view().len(),
+//@ decreases __it.view().len(),
 //@ ---
-//@ let ghost before = args.view();
-                match args.next() {
+//@ let ghost before = __it.view();
+                match __it.next() {
                     Some(arg) => {
                         if arg == Arg::LongOption("help") || arg == Arg::ShortOption('h') {
                             __found = true;
@@ -63,7 +77,7 @@ impl<'a> HelpRequest<'a> {
 //@     let k = items.len() - before.len();
 //@     assert(before[0] == items[k]);
 //@     assert(!(items[k] == ArgItem::Long(help_word()) || items[k] == ArgItem::Short('h')));
-//@     assert(args.view() =~= items.skip(items.len() - args.view().len())) by {
+//@     assert(__it.view() =~= items.skip(items.len() - __it.view().len())) by {
 //@         assert(before.drop_first() =~= items.skip(k + 1));
 //@     }
 //@ }
